@@ -10,6 +10,8 @@ import (
 	"path/filepath"
 	"sync"
 	"testing"
+
+	"github.com/google/licenseclassifier/stringclassifier"
 )
 
 // C14 (root part) — concurrent MultipleMatch / NearestMatch on one
@@ -49,9 +51,14 @@ func TestVerifC14Root(t *testing.T) {
 			}
 			wantMM := make([]string, len(texts))
 			wantNM := make([]string, len(texts))
+			wantNMc := make([]*stringclassifier.Match, len(texts))
 			for i, q := range texts {
 				wantMM[i] = vFmtMatches(L.MultipleMatch(q, true))
-				wantNM[i] = vFmtMatch(L.NearestMatch(q))
+				if m := L.NearestMatch(q); m != nil {
+					cp := *m
+					wantNMc[i] = &cp
+				}
+				wantNM[i] = vFmtMatch(wantNMc[i])
 			}
 			G := []int{4, 8, 16}[idx%3]
 			var wg sync.WaitGroup
@@ -74,7 +81,14 @@ func TestVerifC14Root(t *testing.T) {
 								errs <- fmt.Sprintf("MultipleMatch(text %d) = %s, alone: %s", i, got, wantMM[i])
 							}
 						} else {
-							if got := vFmtMatch(L.NearestMatch(texts[i])); got != wantNM[i] {
+							nm := L.NearestMatch(texts[i])
+							if got := vFmtMatch(nm); got != wantNM[i] {
+								// "If the string is equidistant from multiple known values, it is
+								// undefined which will be returned": same confidence, offset and
+								// extent under another name is not a difference
+								if nm != nil && wantNMc[i] != nil && nm.Confidence == wantNMc[i].Confidence && nm.Offset == wantNMc[i].Offset && nm.Extent == wantNMc[i].Extent {
+									continue
+								}
 								errs <- fmt.Sprintf("NearestMatch(text %d) = %s, alone: %s", i, got, wantNM[i])
 							}
 						}
